@@ -18,7 +18,12 @@ from pedantic import pedantic as ped
 from _checker_common import P, C1, C2, G, U, MI, NT1, NT2
 def _BODY(idx, received):
     return _HOOK(idx, received)
+import inspect as _inspect
 def passthru(f):
+    if _inspect.iscoroutinefunction(f):
+        @wraps(f)
+        async def aw(*a, **k): return await f(*a, **k)
+        return aw
     @wraps(f)
     def w(*a, **k): return f(*a, **k)
     return w
@@ -76,6 +81,8 @@ def gen_callable(r, idx, profile='mixed'):
     where = r.choice(['comment', 'docstring', 'string'])
     base = r.choice([f'f{idx}'] * 6 + [f'__f{idx}', f'f{idx}__', f'_f{idx}'])
     name = base
+    if kind not in ('plain', 'require_kwargs') and name.startswith('__'):
+        name = f'f{idx}__'          # `__x` inside a class body would be name-mangled
     if kind == 'dunder_class':
         name = r.choice(['__call__', '__call__', '__getitem__', '__lt__'] + LISTED[1:2])
     if needle and '{name}' in needle:
